@@ -46,9 +46,17 @@ def run(c):
     rnd = random.Random(c.seed)
     thorough = c.tier == "thorough"
     bindir = build.cargo_build("agent")
-    r = c.tlc("Robust", "Robust.cfg", workers=2, timeout=300, required_actions=["Input", "Answer"])
+    r = c.tlc("Robust", "Robust.cfg", workers=2, timeout=300,
+              required_actions=["Input", "Abandon", "ActorReply", "LogEvent", "Answer", "Drain"])
     if r.violated:
         raise tlcmod.TlcError("Robust.tla: %s" % r.trace_text[:1000])
+    # the two designs the model is sensitive to: a reply that must be delivered, and evict-then-push on a full queue
+    rs = c.tlc("Robust", "Robust_strict.cfg", workers=1, timeout=120, expect_ok=False)
+    re_ = c.tlc("Robust", "Robust_evict.cfg", workers=1, timeout=120, expect_ok=False)
+    c.extra["design_strict_reply_kills_actor"] = rs.invariant_violated == "TasksAlive"
+    c.extra["design_evict_then_push_kills_handler"] = re_.invariant_violated == "NoHandlerDies"
+    if not (c.extra["design_strict_reply_kills_actor"] and c.extra["design_evict_then_push_kills_handler"]):
+        raise tlcmod.TlcError("Robust.tla no longer tells the seeded designs apart: %s / %s" % (rs.invariant_violated, re_.invariant_violated))
     g = c.tlc("RobustGen", "RobustGen.cfg", subdir="gen", workers=2, coverage=False, timeout=300)
     if g.violated:
         raise tlcmod.TlcError("RobustCut: Cut is not total")
@@ -220,6 +228,94 @@ def run(c):
     outcome("keyKeeperNotified", "kknotify", True, len(kpan), probe=True, tasks=seen_after > 0,
             detail={"panics": kpan[:2], "status_polls_after_notifications": seen_after})
     c.traces_validated += 1
+    # 5a. Robust!Abandon + ActorReply, deterministically, for every client call of every shared-state actor: polled once,
+    #     dropped, then the actor must still answer
+    ac = robust_table([{"kind": "actor_cancel"}], "c13_actor")[0]
+    if "calls" not in ac:
+        raise util.ToolError("actor_cancel driver: %s" % ac)
+    pending = [x for x in ac["calls"] if x["polled"] == "pending"]
+    if len(pending) < 40 and all(x["alive"] and not x["panics"] for x in ac["calls"]):
+        raise util.ToolError("actor_cancel: only %d of %d calls were still pending after one poll (vacuous)" % (len(pending), len(ac["calls"])))
+    for x in ac["calls"]:
+        outcome("requesterCancelled", "cancel_%s_%s" % (x["actor"], x["call"]), True, x["panics"], probe=x["alive"], tasks=x["alive"],
+                detail={"actor": x["actor"], "call": x["call"]})
+    c.extra["actor_calls_cancelled"] = len(pending)
+    # 5. clients that go away (Robust!Abandon): the handler future is dropped at whatever await it is in -- also while its
+    #    message sits in an actor's mailbox -- and the actor's reply finds nobody.  Then a patient client must be served and
+    #    the status task must still publish.
+    def abandon_run(attempt):
+        rounds = 400 if not thorough else 4000
+        isteps = [{"op": "set_key", "guid": proxylib.GUID, "key": proxylib.KEYHEX}, {"op": "mark", "tag": "begin:abandon"}]
+        for i in range(rounds):
+            cn = "im%d" % i
+            isteps.append({"op": "connect", "conn": cn, "attr": {"uid": 0, "admin": 1, "dip": "169.254.169.254", "dport": 80},
+                           "wait": i % 8 != 0, "wait_ms": 300})
+            isteps.append({"op": "send", "conn": cn, "id": "", "method": "GET", "target": "/abandon?n=%d" % i, "headers": [["Host", "h"]]})
+            # the end-of-stream has to arrive after the request was read and while the handler waits at one of its awaits:
+            # delays of 0..600 microseconds sweep the handler's awaits (actor calls, rule lookup, upstream request)
+            if i % 8 != 0:
+                isteps.append({"op": "sleep", "us": rnd.choice([0, 20, 40, 60, 80, 100, 130, 160, 200, 250, 300, 400, 600])})
+            # mostly an orderly close right behind the request (the request is delivered, then end-of-stream: the handler is
+            # started and dropped at its first await), sometimes a reset (may discard the request unread)
+            isteps.append({"op": "close", "conn": cn, "rst": i % 4 == 3})
+        # (the listener first works through its backlog of dead connections; a probe sent while a dead connection with the
+        #  same, re-used source port is still in the backlog would lose its stand-in audit record to it: a harness artefact,
+        #  so wait for the backlog and ask twice -- a listener or actor that died fails both)
+        isteps += ([{"op": "wait_audit_settled", "tag": "abandon"}] + probe("abandon") + [{"op": "sleep", "ms": 500}] +
+                   [dict(x, **({"conn": "p2abandon"} if "conn" in x else {}), **({"id": "probe2abandon"} if x.get("id") else {}))
+                    for x in probe("abandon")] + [{"op": "mark", "tag": "end:abandon"}, {"op": "sleep", "ms": 200}])
+        istatus = os.path.join(util.RUNDIR, "c13_imp", "status")
+        isteps.append({"op": "snapshot", "tag": "final", "status_file": os.path.join(istatus, "status.json")})
+        iev, _, _ = rig.run_rig({"steps": isteps, "status_task": {"interval_ms": 50, "dir": istatus}, "drain_ms": 300}, "c13_imp", timeout=600)
+        ipan = [{"location": e["location"], "message": e["message"][:160]} for e in iev if e["e"] == "Panic"]
+        ipr = next((e for e in iev if e["e"] == "Response" and e["id"] in ("probeabandon", "probe2abandon") and e["status"] == 200), None)
+        itasks = any(e["e"] == "Failed" and e.get("source") == "status.json" and e.get("found") for e in iev)
+        return (len(ipan), bool(ipr and ipr["status"] == 200), itasks,
+                {"panics": ipan[:2], "attempt": attempt, "rounds": rounds, "probe": [(e["id"], e.get("status"), e.get("kind")) for e in iev if e["e"] in ("Response", "ResponseError") and str(e.get("id")).startswith("probe")],
+                        "statusPublished": itasks})
+
+    rounds = 400 if not thorough else 4000
+    npan, pr_ok, tk_ok, det = abandon_run(1)
+    if npan == 0 and not (pr_ok and tk_ok):
+        # no panic was recorded, only the follow-up looked wrong: decide on a second execution (a dead listener or actor
+        # fails again; anything else was the environment)
+        c.extra["abandon_first_attempt"] = det
+        npan, pr_ok, tk_ok, det = abandon_run(2)
+    outcome("clientAbandons", "abandon", True, npan, probe=pr_ok, tasks=tk_ok, detail=det)
+    c.extra["abandoned_requests"] = rounds
+    # 6. the telemetry event queue is full (the logger task has not drained it: it starts late and runs once a minute) and
+    #    many handlers write events at once (Robust!LogEvent with evq = QCap): every request is still answered
+    seq_n, par_b, par_n = 1100, 16, 300 if not thorough else 1500
+    if os.environ.get("VERIF_C13_BURST"):
+        par_b, par_n = [int(x) for x in os.environ["VERIF_C13_BURST"].split("x")]
+    ssteps = [{"op": "set_key", "guid": proxylib.GUID, "key": proxylib.KEYHEX}]
+    for k_ in range(4):
+        ssteps.append({"op": "connect", "conn": "sq%d" % k_, "attr": {"uid": 0, "admin": 1, "dip": "169.254.169.254", "dport": 80}})
+    for i in range(seq_n):
+        ssteps.append({"op": "request", "conn": "sq%d" % (i % 4), "id": "sq%d" % i, "method": "GET", "target": "/fill?n=%d" % i, "headers": [["Host", "h"]]})
+    ssteps.append({"op": "mark", "tag": "begin:saturated"})
+    branches = []
+    for b in range(par_b):
+        br = [{"op": "connect", "conn": "pb%d" % b, "attr": {"uid": 0, "admin": 1, "dip": "169.254.169.254", "dport": 80}}]
+        for i in range(par_n):
+            br.append({"op": "request", "conn": "pb%d" % b, "id": "pb%d_%d" % (b, i), "method": "GET", "target": "/burst?b=%d&n=%d" % (b, i),
+                       "headers": [["Host", "h"]], "timeout_ms": 30000})
+        branches.append(br)
+    ssteps.append({"op": "parallel", "branches": branches})
+    ssteps += ([{"op": "wait_audit_settled", "tag": "saturated"}] + probe("saturated") + [{"op": "sleep", "ms": 500}] +
+               [dict(x, **({"conn": "p2saturated"} if "conn" in x else {}), **({"id": "probe2saturated"} if x.get("id") else {}))
+                for x in probe("saturated")] + [{"op": "mark", "tag": "end:saturated"}])
+    sev, _, _ = rig.run_rig({"steps": ssteps, "drain_ms": 300}, "c13_sat", timeout=900)
+    span = [{"location": e["location"], "message": e["message"][:160]} for e in sev if e["e"] == "Panic"]
+    sresp = {e["id"] for e in sev if e["e"] == "Response"}
+    want = {"pb%d_%d" % (b, i) for b in range(par_b) for i in range(par_n)}
+    filled = sum(1 for i in range(seq_n) if "sq%d" % i in sresp)
+    if filled < 1001 and not span:
+        raise util.ToolError("C13 saturation scenario: only %d of %d filling requests were answered" % (filled, seq_n))
+    spr = next((e for e in sev if e["e"] == "Response" and e["id"] in ("probesaturated", "probe2saturated") and e["status"] == 200), None)
+    outcome("eventQueueSaturated", "saturated", want <= sresp, len(span), probe=bool(spr and spr["status"] == 200), tasks=True,
+            detail={"panics": span[:2], "unanswered": len(want - sresp), "burst": len(want)})
+    c.extra["saturated_queue_burst_requests"] = len(want)
     # the verdict, per site, by TLC on the recorded outcomes
     remaining = rows
     for _ in range(12):
